@@ -44,9 +44,7 @@ DevContainer == "C08-container-decodes-refs-with-reader-defs"
 \* a name the reader does not define is an unresolved reference there: modelled by a type no input can satisfy
 Unresolvable(n) == [k |-> "fixed", name |-> n, size |-> 1000000]
 Hybrid(ew, er) == [n \in DOMAIN ew |-> IF n \in DOMAIN er THEN er[n] ELSE Unresolvable(n)]
-ContainerDeviant(e, c, ew, er, D, p) ==
-  LET eh == Hybrid(ew, er)
-      pr == Parse(Enc(c.v, e.W, ew), 1, e.W, eh) IN
+ContainerDeviant(e, pr, eh, er, D, p) ==          \* pr = the written bytes decoded with the hybrid environment eh
   IF ~pr.ok THEN Err ELSE Res(e.W, e.R, pr.v, eh, er, D, p)
 (* with deviations enabled only the reading of union defaults is still open (first branch / first fitting branch) *)
 DevPols == {StdPolicy, FitPolicy}
@@ -60,12 +58,21 @@ JudgeCase(e, c, ew, er) ==
       std == Res(e.W, e.R, c.v, ew, er, {}, StdPolicy)
       Clean(out) == REq(out, std) \/ \E p \in Policies \ {StdPolicy} : REq(out, Res(e.W, e.R, c.v, ew, er, {}, p))
       \* explanation of an entry point's result by deviations ({} = none found)
-      ResultBy(x, out) ==
-        LET plain == Explain(LAMBDA D : \E p \in DevPols : REq(out, Res(e.W, e.R, c.v, ew, er, D, p))) IN
-        IF plain # {} \/ x # "cr" \/ DevContainer \notin KnownIds \/ DOMAIN ew = {} THEN plain
-        ELSE IF \E p \in DevPols : REq(out, ContainerDeviant(e, c, ew, er, {}, p)) THEN {DevContainer}
-        ELSE LET more == Explain(LAMBDA D : \E p \in DevPols : REq(out, ContainerDeviant(e, c, ew, er, D, p))) IN
+      hyb == Hybrid(ew, er)
+      pr == Parse(Enc(c.v, e.W, ew), 1, e.W, hyb)              \* evaluated at most once per case
+      ContBy(out) ==                                            \* explanation through the container reader's deviation
+        IF DevContainer \notin KnownIds \/ DOMAIN ew = {} THEN {}
+        ELSE IF \E p \in DevPols : REq(out, ContainerDeviant(e, pr, hyb, er, {}, p)) THEN {DevContainer}
+        ELSE IF ~pr.ok THEN {}
+        ELSE LET more == Explain(LAMBDA D : \E p \in DevPols : REq(out, ContainerDeviant(e, pr, hyb, er, D, p))) IN
              IF more = {} THEN {} ELSE more \cup {DevContainer}
+      Plain(out) == Explain(LAMBDA D : \E p \in DevPols : REq(out, Res(e.W, e.R, c.v, ew, er, D, p)))
+      ResultBy(x, out) ==
+        IF x # "cr" THEN Plain(out)
+        ELSE \* the container reader: its own deviation alone is tried first (one decode), then the general ones
+             IF DevContainer \in KnownIds /\ DOMAIN ew # {} /\ \E p \in DevPols : REq(out, ContainerDeviant(e, pr, hyb, er, {}, p))
+             THEN {DevContainer}
+             ELSE LET plain == Plain(out) IN IF plain # {} THEN plain ELSE ContBy(out)
       outDr == Out(c.dr)
       cleanDr == Clean(outDr)
       byDr == IF cleanDr THEN {} ELSE ResultBy("dr", outDr)
@@ -99,10 +106,7 @@ JudgeCase(e, c, ew, er) ==
       agree == (Same(c.dr, c.cr) \/ REq(Out(c.dr), Out(c.cr))) /\ (Same(c.dr, c.vr) \/ REq(Out(c.dr), Out(c.vr)))
       \* each result may be acceptable in some reading while the three still differ: the container reader's own
       \* deviation is then looked for explicitly
-      contBy == IF agree \/ DevContainer \notin KnownIds \/ DOMAIN ew = {} \/ ~Same(c.dr, c.vr) THEN {}
-                ELSE IF \E p \in DevPols : REq(Out(c.cr), ContainerDeviant(e, c, ew, er, {}, p)) THEN {DevContainer}
-                ELSE LET more == Explain(LAMBDA D : \E p \in DevPols : REq(Out(c.cr), ContainerDeviant(e, c, ew, er, D, p))) IN
-                     IF more = {} THEN {} ELSE more \cup {DevContainer}
+      contBy == IF agree \/ ~Same(c.dr, c.vr) THEN {} ELSE ContBy(Out(c.cr))
       allBy == UNION {px[x].by : x \in Xs} \cup contBy
       ag == IF agree THEN [fail |-> {}, known |-> {}]
             ELSE IF allBy = {} THEN [fail |-> {"C08:entry-points-agree"}, known |-> {}]
